@@ -207,6 +207,11 @@ def check(ctx):
             det = f"answers `{show(r)[:80]}`; required: the container's own length query"
         else:
             ok = len(lenq) == 1 and ("max" in names or _running_max(pb, pd)) and "min" not in names and "used_streams" in names
+            # ... and nothing is added to it: a count of sends "still being built" (suspended async setters) keeps the backlog above zero with nothing consumable --
+            # an unbounded flush / close then waits for a future nobody may ever resume
+            rr = strip_casts(r)
+            while rr[0] == "pair": rr = strip_casts(rr[1])
+            if rr[0] == "bin" and str(rr[1]).rstrip("!~") in ("Add", "Sub", "Mul"): ok = False
             det = f"calls {sorted(set(names))}; required: the MAXIMUM of the per-listener length queries over the live-listener list (close waits for the slowest listener)"
         ctx.ob("R06.6", f"{kp}|is-the-real-backlog", ok, f"{pb.f['file']}:{pb.f['line']}", det)
     # ------------------------------------------------------------------ R06.5 id given back only by Drop
